@@ -1391,9 +1391,9 @@ def _walk_own(func):
     while todo:
         n = todo.pop()
         yield n
+        if isinstance(n, (ast.FunctionDef, ast.Lambda, ast.ClassDef)):
+            continue
         for c in ast.iter_child_nodes(n):
-            if isinstance(c, (ast.FunctionDef, ast.Lambda, ast.ClassDef)):
-                continue
             todo.append(c)
 
 
